@@ -436,6 +436,79 @@ def _remote_case(args):
                             CORE, "wrong-data", case, "area_um of f1", tags))
                 finally:
                     ds.close()
+        elif variant in ("remote-type-local-path", "old-style-definition"):
+            import json
+            from dclab.rtdc_dataset.writer import RTDCWriter
+            paths = write_graph(d, 3, [])           # three files, no edges
+
+            def rewrite(h5, edit):
+                """Edit the JSON of every basin definition in place."""
+                for k in list(h5["basins"]):
+                    lines = [x.decode() if isinstance(x, bytes) else x
+                             for x in h5["basins"][k][:]]
+                    bd = edit(json.loads(" ".join(lines)))
+                    del h5["basins"][k]
+                    h5["basins"].create_dataset(
+                        k, data=np.array([json.dumps(bd).encode()]))
+            if variant == "remote-type-local-path":
+                # a definition that claims to be remote but names a local
+                # file in the local-file format
+                with RTDCWriter(paths[0], mode="append") as hw:
+                    hw.store_basin("claims-remote", "remote", "hdf5",
+                                   [str(paths[1])], verify=False)
+                for p_ in paths:
+                    host.add(f"http://vf.example/{p_.name}", p_.read_bytes())
+                opened = []
+                orig = h5py.File.__init__
+
+                def spy(self, name, *a, **kw):
+                    if isinstance(name, (str, bytes, os.PathLike)):
+                        opened.append(str(name))
+                    return orig(self, name, *a, **kw)
+                with fakehttp.installed(host):
+                    h5py.File.__init__ = spy
+                    try:
+                        ds = fmt_http.RTDC_HTTP("http://vf.example/f0.rtdc")
+                        offered = FEATS[1] in ds
+                        ds.close()
+                    finally:
+                        h5py.File.__init__ = orig
+                local = [o for o in opened if o.startswith(str(d))]
+                if local or offered:
+                    out.append(violation(
+                        CORE, "local-basin-opened-from-network-format", case,
+                        f"a definition of type 'remote' / format 'hdf5' "
+                        f"made an RTDC_HTTP dataset open {local} (feature "
+                        f"offered: {offered})", tags))
+            else:
+                # f0: an internal (mapped) basin and a file basin whose
+                # definition, as written by old versions or by hand, has
+                # no "mapping" entry (= same events)
+                with RTDCWriter(paths[0], mode="append") as hw:
+                    hw.store_basin(
+                        "vf-int", "internal", "h5dataset", ["basin_events"],
+                        basin_feats=["pos_y"],
+                        basin_map=np.array([0, 1, 1, 0], dtype=np.uint64),
+                        internal_data={"pos_y": np.array([7.5, 9.5])})
+                    hw.store_basin("old", "file", "hdf5", [str(paths[1])],
+                                   verify=False)
+                with h5py.File(paths[0], "a") as h5:
+                    def edit(bd):
+                        if bd["type"] == "file":
+                            bd.pop("mapping", None)
+                        return bd
+                    rewrite(h5, edit)
+                with dclab.new_dataset(paths[0]) as ds:
+                    ok = FEATS[1] in ds and gen.arrays_equal(
+                        np.asarray(ds[FEATS[1]][:]), data_for(1))
+                    if not ok:
+                        out.append(violation(
+                            CORE, "wrong-data", case,
+                            f"a definition without a 'mapping' entry next "
+                            f"to a mapped one: {FEATS[1]} offered="
+                            f"{FEATS[1] in ds}, values "
+                            f"{np.asarray(ds[FEATS[1]][:]) if FEATS[1] in ds else None}"
+                            f" expected {data_for(1)}", tags))
         elif variant == "remote-unreachable":
             edges = [(0, 1)]
             paths = write_graph(d, 2, edges, remote_host={(0, 1)})
@@ -489,7 +562,8 @@ def run(ctx):
                                      if sh not in BIG_SHAPES])
     res += par.pmap(_remote_case, [(v, scratch) for v in (
         "remote-chain", "http-open", "remote-unreachable",
-        "internal-behind-file", "internal-http", "internal-behind-remote")])
+        "internal-behind-file", "internal-http", "internal-behind-remote",
+        "remote-type-local-path", "old-style-definition")])
     viols = []
     cnt = 0
     nontriv = 0
